@@ -106,8 +106,9 @@ SCAN = "insim_core::string::codepages::to_lossy_string"
 def marker_scan(ctx, rep):
     """R10.7: the decoder recognises a marker wherever the encoder can put one.  The encoder emits `^X` context-free (R10.6:
     whenever the active codepage changes, whatever precedes it - an escaped caret included), so the decoder's recognition must be
-    context-free too: (a) every closure of to_lossy_string captures nothing from the function (it sees the bytes it is handed
-    only - a test that looks back at `input[pos - 1]` would have to capture `input`); (b) the position predicate, evaluated as a
+    context-free too: (a) no closure handed to a selecting adaptor of the scan (positions / filter / take_while /
+    retain ...) captures the input (it sees the bytes it is handed only - a test that looks back at `input[pos - 1]` has to
+    capture `input`); (b) the position predicate, evaluated as a
     table over (byte, next byte), is true exactly for a caret followed by one of LFS's marker letters."""
     import tabeval
     b = ctx.mir.body(SCAN)
@@ -124,7 +125,11 @@ def marker_scan(ctx, rep):
             if st["k"] == "assign" and st["rv"]["k"] == "agg" and st["rv"].get("agg") == "closure":
                 clos.append((st["rv"].get("def") or st["rv"].get("closure") or "", st["rv"]["ops"], st.get("line")))
     n = 0
+    SELECT = r"::(positions|position|rposition|filter|filter_map|take_while|skip_while|map_while|retain|retain_mut|dedup_by|dedup_by_key|find|find_map|skip|step_by)$"
+    import re as _re
     for bb, t in b.calls():
+        if not _re.search(SELECT, callee(t)[0] or ""):
+            continue          # only the calls that select which positions count as markers
         for a in t["args"]:
             o = b.origin(a)
             if o[0] == "agg" and o[1][0] == "closure":
